@@ -9,6 +9,9 @@ class Facts:
         r = self.raw
         self.types = r["types"]
         self.fns = {f["key"]: f for f in r["fns"]}
+        import synth
+        for f in synth.all_fns():        # hand-written bodies for std iterator consumers (see lib/synth.py)
+            self.fns[f["key"]] = f
         self.adts = {a["key"]: a for a in r["adts"]}
         self.adts_by_name = {a["name"]: a for a in r["adts"]}
         self.consts = {c["key"]: c for c in r["consts"]}
